@@ -531,6 +531,45 @@ pub fn run(ctx: &Ctx, rep: &mut Report) {
         || script(2000),
         check_script,
     );
+    // (d2) many options in one message (17..=120), small values, mixed deltas
+    let n = ctx.cases(6_000, 100_000);
+    run_prop(
+        ctx,
+        rep,
+        "many-options",
+        "messages with 17..=120 options (deltas 0..=300 biased to 0/1/12/13/14, values 0..=20 bytes and a few long ones, repeated numbers), built in shuffled order; same oracle",
+        n,
+        || {
+            (
+                proptest::collection::vec(
+                    (
+                        prop_oneof![4 => 0u32..=2, 2 => 11u32..=15, 1 => 250u32..=300, 1 => 0u32..=40],
+                        prop_oneof![8 => 0usize..=20, 1 => proptest::sample::select(vec![255usize, 268, 269, 270, 600])],
+                        any::<u8>(),
+                    ),
+                    17..=120,
+                ),
+                token(),
+                code_byte(),
+                any::<u16>(),
+                prop_oneof![Just(0usize), 0usize..30],
+            )
+                .prop_flat_map(|(opts, token, code, mid, plen)| {
+                    let mut num = 0u32;
+                    let mut ops = vec![Op::Token(token), Op::CodeByte(code), Op::Mid(mid), Op::Payload(Blob::Pat { len: plen as u32, seed: 5 })];
+                    for (d, l, s) in opts {
+                        num = (num + d).min(65535);
+                        ops.push(Op::Add(num as u16, Blob::Pat { len: l as u32, seed: s }));
+                    }
+                    Just(ops).prop_shuffle()
+                })
+                .prop_map(|ops| Script { ops })
+        },
+        |ctx, s: &Script, acc| {
+            acc.class("many-options-script");
+            check_script(ctx, s, acc)
+        },
+    );
     // (e) the same with option values up to the 16-bit length limit.
     let n = ctx.cases(4_000, 60_000);
     run_prop(
